@@ -13,7 +13,7 @@
 (***************************************************************************)
 EXTENDS Integers, Sequences, FiniteSets, TLC
 
-CONSTANTS NodeKeys, ServerKeys, KeyIds
+CONSTANTS NodeKeys, ServerKeys, KeyIds    \* the key id "k0" stands for the EMPTY key id (no associated data on that side)
 
 NONE == "none"
 \* one half of a key source
